@@ -1,7 +1,9 @@
 Require Extraction.
 Require Import ExtrOcamlBasic.
 From Coq Require Import NArith ZArith List.
-From CppcmsV Require Import C11.Defs.
+From CppcmsV Require Import C11.Defs C11.NumGrammar C11.IntRound C11.ValueApi.
 Definition keep_types : (N * Z * nat) := (0%N, 0%Z, 0%nat).
 Extraction "c11m.ml" keep_types parse load save write_string map_insert get_int get_float utf8_valid utf8_table
-  depth no_undef strings_ok maps_ok.
+  depth no_undef strings_ok maps_ok
+  strtod_dec len_num rfc_num scan_number
+  small_int print16_int to_double_int dec_value jv_eqb map_find.
